@@ -366,6 +366,9 @@ func (w *World) CurVersion(diskID int, p string) int      { return w.disks[diskI
 func (w *World) OpBegin(i int) {
 	w.local().curOp = i
 	w.local().cbCount = 0
+	if tc := CurrentTask(); tc != nil {
+		tc.noYield = 0 // (a panic inside a no-yield region of the previous operation leaves it raised)
+	}
 	w.call(KOpBegin, uint32(i), 0, "")
 }
 func (w *World) OpEnd(i int) { w.call(KOpEnd, uint32(i), 0, "") }
